@@ -242,6 +242,7 @@ def run_enumeration(case: dict, trace: bool = False) -> dict:
 
 class C14(Profile):
     id = 'C14'
+    BACKENDS = ('dict', 'dict', 'dict', 'maildir')
     level = 'fault_enumeration'
     quick_budget_s = 45.0
     thorough_budget_s = 420.0
@@ -270,7 +271,9 @@ class C14(Profile):
     components = C01.components
 
     def gen(self, rng, tier):
-        return gen_fault_case(rng, tier)
+        from .common import backends, finish_cfg
+        return finish_cfg(gen_fault_case(
+            rng, tier, backends=backends(self.BACKENDS)), rng)
 
     def run(self, case, trace=False):
         return run_enumeration(case, trace)
